@@ -179,6 +179,16 @@ def array_cases(rec, hub, rng, tier, i):
                 rec.event(MA, sig=sig, cls=f"{plotter_name}|{chart}|nd={nd}|subplot={'y' if sl else 'n'}|lines={'y' if ll else 'n'}|xarr={'y' if x_arr is not None else 'n'}",
                           sample={"plotter": plotter_name, "chart": chart, "dims": letters, "intra_line": kw["intra_line_dim"], "subplot": kw.get("subplot_dim"), "line": kw.get("linecolor_dim"), "x_array_dims": xsig})
                 cls = ap.PlotlyArrayPlotter if plotter_name == "plotly" else ap.PyplotArrayPlotter
+                if plotter_name == "plotly" and sl is not None and chart == "line" and rng.random() < 0.4:
+                    # a figure the user made: another grid than the plotter would choose; subplot i is the i-th cell in row-major order
+                    from plotly.subplots import make_subplots
+
+                    n_sub = len(dims[sl].items)
+                    grids = [(1, n_sub), (n_sub, 1), (2, (n_sub + 1) // 2 + 1), (n_sub + 1, 2)]
+                    rows_, cols_ = grids[int(rng.integers(0, len(grids)))]
+                    kw["fig"] = make_subplots(rows_, cols_)
+                    sig += f"|user-grid={rows_}x{cols_}"
+                    rec.event(MA, sig=sig, cls="plotly|user-made-grid")
                 try:
                     fig = cls(**kw).plot()
                 except Exception as e:
